@@ -235,6 +235,12 @@ package bttest
 //@   requires c != nil
 //@   ensures result0 != nil
 //@   ensures result1 == nil ==> (result0 == c || fresh(result0))
+//@   ensures (f == nil || !typeis(f.Filter, *btpb.RowFilter_ApplyLabelTransformer)) ==> result1 == nil
+//@   ensures result1 == nil ==> result0.TimestampMicros == c.TimestampMicros
+//@   ensures (f == nil || (!typeis(f.Filter, *btpb.RowFilter_StripValueTransformer) && !typeis(f.Filter, *btpb.RowFilter_ApplyLabelTransformer))) ==> result0 == c
+//@   ensures result1 != nil ==> uf_grpcCode(result1) == codes.InvalidArgument
+//@   ensures f != nil && typeis(f.Filter, *btpb.RowFilter_StripValueTransformer) ==> fresh(result0) && len(result0.Value) == 0
+//@   ensures f != nil && typeis(f.Filter, *btpb.RowFilter_ApplyLabelTransformer) && result1 == nil ==> fresh(result0) && result0.Value == c.Value
 
 // ---------------------------------------------------------------------------------------------
 // Cell lists
